@@ -3,7 +3,7 @@
 
 using namespace av;
 
-struct PinSpec { unsigned cls; double xo, yo; bool prop; double inside; unsigned dirs; int exclusive; double cost; Avoid::ShapeConnectionPin *ref; };  // exclusive: -1 default, 0/1 explicit
+struct PinSpec { unsigned cls; double xo, yo; bool prop; double inside; unsigned dirs; int exclusive; double cost; Avoid::ShapeConnectionPin *ref;  bool unregistered = false; };  // exclusive: -1 default, 0/1 explicit
 struct LShape { ll x0, y0, x1, y1; Avoid::ShapeRef *ref; std::vector<PinSpec> pins; };
 struct CEnd { int kind; int shape; unsigned cls; IP p; int junction; };   // kind 0 free point, 1 pin class on shape, 2 junction
 struct LConn { CEnd e[2]; std::vector<IP> cps; Avoid::ConnRef *ref; };
@@ -96,6 +96,8 @@ static void case_pins(const Args &a, long idx, bool wantDesc, CaseResult &res) {
                 pj.raw(JObj().i("class", p->cls).num("xOffset", p->xo).num("yOffset", p->yo).b("proportional", p->prop).num("insideOffset", p->inside).i("visDirs", p->dirs).i("exclusive(-1=default)", p->exclusive).num("cost", p->cost).done()); D.i(p->cls); D.d(p->xo); D.d(p->yo); D.d(p->inside); D.i(p->dirs); }
             res.count("aligned_centre_plus_side_pin_pairs");
         }
+        // a pin created with exactly the values of an earlier pin of the shape is not registered in the shape's pin set (std::set semantics); it exists and reports a position, but the shape does not transform it
+        for (size_t i = 0; i < s.pins.size(); i++) for (size_t j = 0; j < i; j++) { const PinSpec &a = s.pins[i], &b = s.pins[j]; if (!b.unregistered && a.cls == b.cls && a.xo == b.xo && a.yo == b.yo && a.prop == b.prop && a.inside == b.inside && a.dirs == b.dirs) s.pins[i].unregistered = true; }
         shapes.push_back(s);
         hist.raw(JObj().str("op", "addShape").i("id", (long)shapes.size() - 1).raw("rect_x0_y0_x1_y1", JArr().i(x0).i(y0).i(x0 + w).i(y0 + h).done()).raw("pins", pj.done()).done());
         D.i(x0); D.i(y0); D.i(w); D.i(h);
@@ -229,10 +231,10 @@ static void case_pins(const Args &a, long idx, bool wantDesc, CaseResult &res) {
         for (auto &kv : exclUse) if (kv.second > exclCap[kv.first]) res.violate("exclusive-pin-used-by-several-connectors", JObj().i("transaction", txn).i("shape", kv.first.first.first).i("class", kv.first.first.second).raw("position", JArr().num(kv.first.second.first).num(kv.first.second.second).done()).i("connector_ends", kv.second).i("exclusive_pins_there", exclCap[kv.first]).raw("history", hist.done()).done());
     };
 
-    auto moveOps = [&](int nops) {
+    auto moveOps = [&](int nops, int first = -1) {
         std::set<int> touched;
         for (int o = 0; o < nops; o++) {
-            int s = (int)R.ri(0, (long)shapes.size() - 1); if (touched.count(s)) continue;
+            int s = (o == 0 && first >= 0) ? first : (int)R.ri(0, (long)shapes.size() - 1); if (touched.count(s)) continue;
             LShape &ls = shapes[s];
             for (int t = 0; t < 30; t++) {
                 bool resize = R.coin(0.4); ll w = ls.x1 - ls.x0, h = ls.y1 - ls.y0, x0, y0;
@@ -248,6 +250,35 @@ static void case_pins(const Args &a, long idx, bool wantDesc, CaseResult &res) {
             }
         }
     };
+    // a connector end is given a new target (another shape's pin class, or a free point); returns the shape it was attached to before (or -1):
+    // the caller then often moves that very shape in the same transaction, so that the shape's "my pins moved" update and the user's change meet in one queue
+    auto retarget = [&]() -> int {
+        size_t c = (size_t)R.ri(0, (long)conns.size() - 1); int k = (int)R.ri(0, 1); CEnd &e = conns[c].e[k]; const CEnd &other = conns[c].e[1 - k]; CEnd ne; ne.shape = -1; ne.cls = 0; ne.junction = -1; ne.p = IP{0, 0};
+        if (R.coin(0.6)) { ne.kind = 1; ne.shape = (int)R.ri(0, (long)shapes.size() - 1); if ((e.kind == 1 && e.shape == ne.shape) || (other.kind == 1 && other.shape == ne.shape)) return -1;
+            std::vector<unsigned> cl; for (auto &p : shapes[ne.shape].pins) cl.push_back(p.cls); ne.cls = cl[R.ri(0, (long)cl.size() - 1)]; if (used[{ne.shape, ne.cls}] >= capacity(ne.shape, ne.cls)) return -1; }
+        else { ne.kind = 0; if (!freePt(ne.p) || (other.kind == 0 && other.p == ne.p)) return -1; }
+        int old = e.kind == 1 ? e.shape : -1;
+        if (e.kind == 1) used[{e.shape, e.cls}]--; if (ne.kind == 1) used[{ne.shape, ne.cls}]++;
+        Avoid::ConnEnd ce = ne.kind == 1 ? Avoid::ConnEnd(shapes[ne.shape].ref, ne.cls) : Avoid::ConnEnd(Avoid::Point((double)ne.p.x, (double)ne.p.y));
+        set_stage("setEndpoint"); if (k == 0) conns[c].ref->setSourceEndpoint(ce); else conns[c].ref->setDestEndpoint(ce);
+        hist.raw(JObj().str("op", k == 0 ? "setSourceEndpoint" : "setDestEndpoint").i("connector", (long)c).raw("to", ne.kind == 1 ? JObj().i("shape", ne.shape).i("pinClass", ne.cls).done() : ipj(ne.p)).done());
+        D.i(77); D.i((ll)c); D.i(k); D.i(ne.kind); D.i(ne.shape); D.i(ne.cls); D.i(ne.p.x); D.i(ne.p.y);
+        e = ne; res.count("connector_ends_retargeted"); if (old >= 0) res.count("connector_ends_retargeted_away_from_a_pin");
+        for (auto &p : shapes[ne.kind == 1 ? ne.shape : 0].pins) (void)p;
+        return old;
+    };
+    // ShapeRef::transformConnectionPinPositions: flips and the half turn keep a rectangle's box, so only the pins change (offsets mirrored, explicit direction masks mirrored)
+    auto transformPins = [&]() {
+        int si = (int)R.ri(0, (long)shapes.size() - 1); int t = (int)R.ri(0, 2); LShape &ls = shapes[si]; double w = (double)(ls.x1 - ls.x0), h = (double)(ls.y1 - ls.y0);
+        Avoid::ShapeTransformationType tt = t == 0 ? Avoid::TransformationType_FlipX : t == 1 ? Avoid::TransformationType_FlipY : Avoid::TransformationType_CW180;
+        bool fx = t != 1, fy = t != 0;
+        auto inv = [](double off, double len, bool prop) { if (prop) return 1.0 - off; if (off == 0) return -1.0; if (off == -1) return 0.0; return len - off; };
+        for (auto &p : ls.pins) { if (p.unregistered) continue; if (fx) p.xo = inv(p.xo, w, p.prop); if (fy) p.yo = inv(p.yo, h, p.prop);
+            if ((p.dirs & Avoid::ConnDirAll) && p.dirs != Avoid::ConnDirAll) { unsigned d = p.dirs, nd = 0; bool U = d & Avoid::ConnDirUp, Dn = d & Avoid::ConnDirDown, L = d & Avoid::ConnDirLeft, Rt = d & Avoid::ConnDirRight; if (fx) std::swap(L, Rt); if (fy) std::swap(U, Dn);
+                if (U) nd |= Avoid::ConnDirUp; if (Dn) nd |= Avoid::ConnDirDown; if (L) nd |= Avoid::ConnDirLeft; if (Rt) nd |= Avoid::ConnDirRight; p.dirs = nd; } }
+        set_stage("transformConnectionPinPositions"); ls.ref->transformConnectionPinPositions(tt);
+        hist.raw(JObj().str("op", "transformConnectionPinPositions").i("id", si).str("transform", t == 0 ? "FlipX" : t == 1 ? "FlipY" : "CW180").done()); D.i(88); D.i(si); D.i(t); res.count("pin_transformations");
+    };
     // shapes may be moved or resized while their addition is still queued (before the first processTransaction)
     bool earlyMoves = R.coin(0.25);
     if (earlyMoves) { set_stage("moves-before-first-transaction"); moveOps((int)R.ri(1, 3)); res.count("scenes_with_moves_before_the_first_transaction"); }
@@ -255,7 +286,11 @@ static void case_pins(const Args &a, long idx, bool wantDesc, CaseResult &res) {
     monitor(0);
     int ntx = (int)R.ri(0, 4);
     for (int tx = 1; tx <= ntx && res.findings.empty(); tx++) {
-        moveOps((int)R.ri(1, 2));
+        int first = -1; bool rt = R.coin(0.3), before = R.coin(0.5);
+        if (rt && before) { int old = retarget(); if (old >= 0 && R.coin(0.7)) first = old; }
+        if (R.coin(0.2)) transformPins();   // before any move of this transaction is queued: absolute offsets are mirrored within the shape's current box
+        moveOps((int)R.ri(1, 2), first);
+        if (rt && !before) retarget();
         set_stage("processTransaction"); router->processTransaction(); hist.raw(JObj().str("op", "processTransaction").done());
         monitor(tx);
     }
